@@ -30,6 +30,10 @@ def check(ctx, R):
         _push_status(ctx, R, roles, T)
         _nd_own(ctx, R, roles, T)
         _exc(ctx, R, roles)
+        _raise_sites(ctx, R, roles)
+        from .c08 import _pull as pull_rules, buffer_access
+        pull_rules(ctx, R, roles, T)      # pull must read on until the device's terminating record (DONE or FAIL), whatever was received so far
+        buffer_access(ctx, R, roles)
     R.assume("the pump discards packets of the caller's own stream whose command is not in `expected` (asserted by the unit tests); hence awaiting sites must list every command that matters")
     R.undecided("timing of FAIL vs OKAY on a real device")
 
@@ -93,6 +97,20 @@ def _reader(ctx, R, roles, T):
                         R.check("InvalidResponseError" in s, "FAIL-map", q + "|other->InvalidResponseError", "any other unexpected id -> InvalidResponseError", "an unexpected non-FAIL record raises `%s` instead of InvalidResponseError" % s, f.loc(rn.ast))
                     else:
                         R.fail("FAIL-map", q + "|raise-undetermined|" + norm_stmt(rn.ast), "a raise under `id not in expected` is not decided by `id == FAIL`", f.loc(rn.ast))
+
+
+def _raise_sites(ctx, R, roles):
+    """The documented failure exceptions are raised only where the rules above examine them."""
+    allowed = {"PushFailedError": {"_push"}, "AdbCommandFailureException": {"_filesync_read"}}
+    for f in roles.mod.all_funcs:
+        g = ctx.cfg(f)
+        for n in g.live_nodes():
+            if n.kind == "stmt" and isinstance(n.ast, ast.Raise) and n.ast.exc is not None:
+                s_ = src(n.ast.exc)
+                for exc, fns in allowed.items():
+                    if exc in s_:
+                        R.check(f.name in fns and f.cls is roles.dev_cls, "FAIL-sites", "%s|%s" % (f.qualname, exc), "%s is raised in %s" % (exc, f.name),
+                                "%s is raised in %s, outside the status handling that the device's FAIL record goes through (a failure can be reported that the device never sent, or with a truncated reason)" % (exc, f.qualname), f.loc(n.ast))
 
 
 def _is_payload(t):
@@ -163,6 +181,9 @@ def _push_status(ctx, R, roles, T):
             e = x.ast.exc
             okx = e is not None and isinstance(e, ast.Call) and "PushFailedError" in src(e.func) and len(e.args) == 1 and T.term(f, x, e.args[0]) == ("proj", item, 2)
             good = good and okx
+        for x in g.live_nodes():
+            if x.kind == "stmt" and isinstance(x.ast, ast.Raise) and x.ast.exc is not None and "PushFailedError" in src(x.ast.exc) and x not in rr:
+                R.fail("PUSH-status", q + "|stray-raise|" + norm_stmt(x.ast)[:50], "PushFailedError is raised outside the handling of the device's status record (`%s`)" % norm_stmt(x.ast)[:70], f.loc(x.ast))
         R.check(good, "PUSH-status", q + "|fail-raises", "any status other than OKAY raises PushFailedError(device message)",
                 "a non-OKAY status does not (only) raise PushFailedError carrying the record's payload", f.loc(tn.ast))
 
